@@ -668,3 +668,109 @@ _RT_PATHS.update({
     ("Self::laguer", 3): dict(g="(let* l := laguer RA {0} {1} in Ok ({0}, lx l, liters l))", ret="unit", fallible=True,
                               out=["arg0", "arg1", "arg2"], args=["cvec", "celem", "usize"]),
 })
+
+# ---------------------------------------------------------------------------------------------------- Wrappers: round two
+# the consuming (by-value) operator forms, which delegate to the by-reference forms round one translated, the constructors /
+# accessors / Clone impls that only move fields around, Polynomial's Index and degree.  `x.clone()` is the identity in the
+# translation (trusted: Clone is deep); the Clone impls translated here are exactly that identity for the types of this crate.
+BINOPS.update({
+    ("+", "band", "band"): dict(g="band_add {0} {1}", ret="band", fallible=True),
+    ("-", "band", "band"): dict(g="band_sub {0} {1}", ret="band", fallible=True),
+    ("*", "band", "elem"): dict(g="band_scale {0} {1}", ret="band", fallible=True),
+    ("/", "band", "elem"): dict(g="band_div {0} {1}", ret="band", fallible=True),
+    ("*", "band", "vec"): dict(g="band_mul {0} {1}", ret="vec", fallible=True),
+    ("*", "mat", "mat"): dict(g="mat_mul {0} {1}", ret="mat", fallible=True),
+    ("*", "tri", "vec"): dict(g="tmul {0} {1}", ret="vec", fallible=True),
+})
+UNOPS[("-", "band")] = dict(g="band_neg {0}", ret="band", fallible=True)
+ASSIGNOPS.update({("+=", "band", "band"): dict(g="band_add_assign {0} {1}", ret="band", fallible=True),
+                  ("-=", "band", "band"): dict(g="band_sub_assign {0} {1}", ret="band", fallible=True)})
+RUST_TYPES += [(r"^Result<usize,&'staticstr>$", ("opt", "usize")), (r"^Newton<T>$", "ncfg_s"), (r"^\(f64,f64,usize,T\)$", ("tuple", ["elem", "elem", "usize", "elem"]))]
+for _f, _i in (("tol", 0), ("delta", 1), ("max_iter", 2), ("guess", 3)):
+    SETFIELDS[("ncfg_s", _f)] = "(mkCfg " + " ".join("{1}" if k == _i else "(%s {0})" % n for k, n in enumerate(["tol", "delta", "max_iter", "guess"])) + ")"
+STRUCTS["Polynomial"] = (["coeffs"], "{0}", "poly")
+ARI_B = "src/banded.rs"
+P_T = r"^<T>Polynomial<T>$"
+MODULES["Wrappers"] = dict(
+    imports="From OV Require Import Base.Panic Base.Arith Model.Vector Model.Matrix Model.Tridiag Model.Banded Model.Poly Model.Newton gen.SrcPrelude.",
+    funcs=[
+        # vector/arithmetic.rs
+        dict(name="vadd_ref", file=V_ARI, impl=r"Add<&Vector<T>>forVector<T>$", fn="add"),
+        dict(name="vadd_val", file=V_ARI, impl=r"Add<Vector<T>>forVector<T>$", fn="add"),
+        dict(name="vsub_ref", file=V_ARI, impl=r"Sub<&Vector<T>>forVector<T>$", fn="sub"),
+        dict(name="vsub_val", file=V_ARI, impl=r"Sub<Vector<T>>forVector<T>$", fn="sub"),
+        # matrix/arithmetic.rs
+        dict(name="mneg_val", file=M_ARI, impl=r"NegforMatrix<T>$", fn="neg"),
+        dict(name="madd_val", file=M_ARI, impl=r"Add<Matrix<T>>forMatrix<T>$", fn="add"),
+        dict(name="msub_val", file=M_ARI, impl=r"Sub<Matrix<T>>forMatrix<T>$", fn="sub"),
+        dict(name="mscale_val", file=M_ARI, impl=r"Mul<T>forMatrix<T>$", fn="mul"),
+        dict(name="mdiv_val", file=M_ARI, impl=r"Div<T>forMatrix<T>$", fn="div"),
+        dict(name="madd_assign_val", file=M_ARI, impl=r"^<T:Copy\+Number>AddAssignforMatrix<T>$", fn="add_assign"),
+        dict(name="msub_assign_val", file=M_ARI, impl=r"^<T:Copy\+Number>SubAssignforMatrix<T>$", fn="sub_assign"),
+        dict(name="mat_mul_val", file=M_ARI, impl=r"Mul<Matrix<T>>forMatrix<T>$", fn="mul"),
+        dict(name="mat_vec_mul_val", file=M_ARI, impl=r"Mul<Vector<T>>forMatrix<T>$", fn="mul"),
+        # matrix/mod.rs
+        dict(name="mat_empty", file="src/matrix/mod.rs", impl=r"^<T>Matrix<T>$", fn="empty"),
+        dict(name="mrows", file="src/matrix/mod.rs", impl=r"^<T>Matrix<T>$", fn="rows"),
+        dict(name="mcols", file="src/matrix/mod.rs", impl=r"^<T>Matrix<T>$", fn="cols"),
+        dict(name="mclone", file="src/matrix/mod.rs", impl=r"CloneforMatrix<T>$", fn="clone"),
+        # banded.rs
+        dict(name="band_empty", file=ARI_B, impl=r"^<T>Banded<T>$", fn="empty"),
+        dict(name="band_size", file=ARI_B, impl=r"^<T>Banded<T>$", fn="size"),
+        dict(name="band_size_below", file=ARI_B, impl=r"^<T>Banded<T>$", fn="size_below"),
+        dict(name="band_size_above", file=ARI_B, impl=r"^<T>Banded<T>$", fn="size_above"),
+        dict(name="band_compact", file=ARI_B, impl=r"^<T>Banded<T>$", fn="compact"),
+        dict(name="band_neg_val", file=ARI_B, impl=r"NegforBanded<T>$", fn="neg"),
+        dict(name="band_add_val", file=ARI_B, impl=r"Add<Banded<T>>forBanded<T>$", fn="add"),
+        dict(name="band_sub_val", file=ARI_B, impl=r"Sub<Banded<T>>forBanded<T>$", fn="sub"),
+        dict(name="band_scale_val", file=ARI_B, impl=r"Mul<T>forBanded<T>$", fn="mul"),
+        dict(name="band_div_val", file=ARI_B, impl=r"Div<T>forBanded<T>$", fn="div"),
+        dict(name="band_add_assign_val", file=ARI_B, impl=r"AddAssign<Banded<T>>forBanded<T>$", fn="add_assign"),
+        dict(name="band_sub_assign_val", file=ARI_B, impl=r"SubAssign<Banded<T>>forBanded<T>$", fn="sub_assign"),
+        dict(name="band_mul_val", file=ARI_B, impl=r"Mul<Vector<T>>forBanded<T>$", fn="mul"),
+        # tridiagonal.rs
+        dict(name="tempty", file=TRI, impl=TRI_T, fn="empty"),
+        dict(name="tsize", file=TRI, impl=TRI_T, fn="size"),
+        dict(name="tsubdiagonal", file=TRI, impl=TRI_T, fn="subdiagonal"),
+        dict(name="tmaindiagonal", file=TRI, impl=TRI_T, fn="maindiagonal"),
+        dict(name="tsuperdiagonal", file=TRI, impl=TRI_T, fn="superdiagonal"),
+        dict(name="tclone", file=TRI, impl=r"CloneforTridiagonal<T>$", fn="clone"),
+        dict(name="tmul_val", file=TRI, impl=r"Mul<Vector<T>>forTridiagonal<T>$", fn="mul"),
+        # polynomial
+        dict(name="padd_val", file=P_ARI, impl=r"Add<Polynomial<T>>forPolynomial<T>$", fn="add"),
+        dict(name="pneg_val", file=P_ARI, impl=r"NegforPolynomial<T>$", fn="neg"),
+        dict(name="psub_val", file=P_ARI, impl=r"Sub<Polynomial<T>>forPolynomial<T>$", fn="sub"),
+        dict(name="pmul_val", file=P_ARI, impl=r"Mul<Polynomial<T>>forPolynomial<T>$", fn="mul"),
+        dict(name="pscale_val", file=P_ARI, impl=r"Mul<T>forPolynomial<T>$", fn="mul"),
+        dict(name="pindex", file=P_ARI, impl=r"Index<usize>forPolynomial<T>$", fn="index"),
+        dict(name="pempty", file=P_MOD, impl=P_T, fn="empty"),
+        dict(name="pnew", file=P_MOD, impl=P_T, fn="new"),
+        dict(name="pquadratic", file=P_MOD, impl=P_T, fn="quadratic"),
+        dict(name="pcubic", file=P_MOD, impl=P_T, fn="cubic"),
+        dict(name="psize", file=P_MOD, impl=P_T, fn="size"),
+        dict(name="pdegree", file=P_MOD, impl=P_T, fn="degree",
+             result_enum=dict(ty=("opt", "usize"), ok="Some", err_const="None", ok_ty="usize")),
+        dict(name="pclone", file=P_MOD, impl=r"CloneforPolynomial<T>$", fn="clone"),
+        # vector/mod.rs
+        dict(name="vempty", file=V_MOD, impl=r"^<T>Vector<T>$", fn="empty"),
+        dict(name="vcreate", file=V_MOD, impl=r"^<T>Vector<T>$", fn="create"),
+        dict(name="vclone", file=V_MOD, impl=r"CloneforVector<T>$", fn="clone"),
+        # newton.rs
+        dict(name="newton_tolerance", file=NWT, impl=r"^<T>Newton<T>$", fn="tolerance"),
+        dict(name="newton_delta", file=NWT, impl=r"^<T>Newton<T>$", fn="delta"),
+        dict(name="newton_iterations", file=NWT, impl=r"^<T>Newton<T>$", fn="iterations"),
+        dict(name="newton_guess", file=NWT, impl=r"^<T>Newton<T>$", fn="guess"),
+        dict(name="newton_parameters", file=NWT, impl=r"^<T:Copy>Newton<T>$", fn="parameters"),
+    ])
+PATHS[("Self::new", 1)] = dict(g="{0}", ret="poly", atom=True, args=["vec"])
+PATHS[("Vec::<T>::new", 0)] = dict(g="(@nil (T A))", ret="vec", atom=True)
+
+# one generated file per family, so that a broken tie stays with the property that owns the family
+def _split_wrappers():
+    fam = {"v": "WrapVector", "m": "WrapMatrix", "band": "WrapBanded", "t": "WrapTridiag", "p": "WrapPoly", "newton": "WrapNewton"}
+    ent = MODULES.pop("Wrappers")
+    for f in ent["funcs"]:
+        n = f["name"]
+        key = "band" if n.startswith("band_") else "newton" if n.startswith("newton_") else "m" if n.startswith("m") else n[0]
+        MODULES.setdefault(fam[key], dict(imports=ent["imports"], funcs=[]))["funcs"].append(f)
+_split_wrappers()
